@@ -1059,6 +1059,8 @@ def build(repo):
     # the certificate functions are premises of every replica rule: the properties served by this unit count their failures too
     U.props = ["C04", "C01", "C02", "C03", "C05", "C16"]
     T.add_base_types(U)
+    # R-path: the `v2::` module prefix is dropped wherever a function body carries it (after `validator::` has been dropped)
+    U.tail_subs = list(U.tail_subs) + [("v2::", "", None)]
     Q.add_signers(U)
     Q.add_commit(U)
     Q.add_timeout(U)
